@@ -88,9 +88,17 @@ Inductive op :=
   | Kron (fs : seq (nat * mat))
   | KPAD (fs : seq (nat * mat)) (dk : kdiag)
   | LRRAD (n k : nat) (U : mat) (d : vec)
-  | Exact (n : nat) (M : mat).
+  | Exact (n : nat) (M : mat)
         (* classes whose override computes both terms by exact structured solves / eigendecompositions
            (SumKroneckerLinearOperator): modelled by meaning through the dense Cholesky factor; None placeholders *)
+  | Cached (n : nat) (M : mat) (L : mat).
+        (* a class without an override (as [Generic], no preconditioner) that ARRIVES with a pre-filled cache: its
+           "root_decomposition" cache entry holds a lower TriangularLinearOperator root L (transplanted by cat_rows /
+           add_low_rank, or left by an earlier root_decomposition() call).  The Cholesky shortcut of inv_quad_logdet
+           re-uses exactly such an entry (_is_in_cache_ignore_all_args(self, "root_decomposition") and
+           isinstance(root, TriangularLinearOperator)) instead of computing self.cholesky(); a cached root of any
+           other class is ignored ([Generic]).  L is an INPUT of the model (read back from the cache before the
+           call): nothing in the code checks that L L^T = M. *)
 
 Inductive bop :=
   | BLeaf (bs : seq nat) (ms : seq op)
@@ -112,6 +120,7 @@ Definition op_size (o : op) : nat :=
   match o with
   | Generic n _ _ => n | Diag d => size d | Ident n => n | Tri _ n _ => n | Chol _ n _ => n
   | Kron fs => kron_size fs | KPAD fs _ => kron_size fs | LRRAD n _ _ _ => n | Exact n _ => n
+  | Cached n _ _ => n
   end.
 
 (* the dense matrix a member denotes (used by the base-class paths of Kron / KPAD / LRRAD) *)
@@ -252,7 +261,12 @@ Definition precond_mat (n : nat) (pc : nat * mat * vec) : mat :=
   mtab n n (fun i j => aadd A (sumn_ (fun a => amul A (mget L i a) (mget L j a)) k)
                               (if i == j then vget d i else a0 A)).
 
-Record gmember := MkG { g_n : nat; g_M : mat; g_pc : option (nat * mat * vec) }.
+Record gmember := MkG { g_n : nat; g_M : mat; g_pc : option (nat * mat * vec);
+                        g_root : option mat (* cached lower-triangular root_decomposition entry, if any *) }.
+(* the factor the Cholesky shortcut hands to CholLinearOperator: the cached triangular root if there is one
+   (will_need_cholesky = False), else TriangularLinearOperator(self.cholesky()) *)
+Definition shortcut_root (n : nat) (g : gmember) : mat :=
+  if g_root g is Some L then L else cholesky A n (g_M g).
 
 Definition cg_settings_of (S : settings) : cg_settings F :=
   MkSettings (s_max_cg_iter S) (s_max_lq_iter S) (s_cg_tol S) (s_terminate_by_size S) (k_tri_thresh S).
@@ -346,8 +360,9 @@ Definition chol_iql (bs : seq nat) (fs : seq (bool * nat * mat)) (R : rhs_in) (l
 Definition generic_iql (S : settings) (bs : seq nat) (n : nat) (gs : seq gmember) (R : rhs_in)
            (logdet reduce : bool) (probes : cols) : result (out * out) :=
   if chol_route S n then
-    (* CholLinearOperator(TriangularLinearOperator(self.cholesky())).inv_quad_logdet(...) *)
-    ROk (chol_iql bs [seq (false, n, cholesky A n (g_M g)) | g <- gs] R logdet reduce)
+    (* CholLinearOperator(root).inv_quad_logdet(...), root = the cached triangular root_decomposition entry if the
+       cache holds one, else TriangularLinearOperator(self.cholesky()) *)
+    ROk (chol_iql bs [seq (false, n, shortcut_root n g) | g <- gs] R logdet reduce)
   else if ~~ logdet then
     match R with
     | None => RErr ENoRhsNoLogdet
@@ -365,10 +380,11 @@ Definition generic_iql (S : settings) (bs : seq nat) (n : nat) (gs : seq gmember
 
 Definition gmember_of (o : op) : gmember :=
   match o with
-  | Generic n M pc => MkG n M pc
-  | Kron fs => MkG (kron_size fs) (kron_dense fs) None
-  | KPAD fs dk => MkG (kron_size fs) (kpad_dense fs dk) None
-  | _ => MkG 0 [::] None
+  | Generic n M pc => MkG n M pc None
+  | Cached n M L => MkG n M None (Some L)
+  | Kron fs => MkG (kron_size fs) (kron_dense fs) None None
+  | KPAD fs dk => MkG (kron_size fs) (kpad_dense fs dk) None None
+  | _ => MkG 0 [::] None None
   end.
 
 Definition map_rhs (f : op -> vec -> F) (ms : seq op) (Rs : seq cols) : seq (seq F) :=
@@ -420,6 +436,7 @@ Definition leaf_iql (S : settings) (bs : seq nat) (ms : seq op) (R : rhs_in) (lo
   let n := op_size (head (Ident 0) ms) in
   match head (Ident 0) ms with
   | Generic _ _ _ => generic_iql S bs n [seq gmember_of o | o <- ms] R logdet reduce probes
+  | Cached _ _ _ => generic_iql S bs n [seq gmember_of o | o <- ms] R logdet reduce probes
   | Diag _ =>
       ROk (empty_conv bs ms R logdet reduce true
              (fun o r => if o is Diag d then diag_iq_col d r else a0 A)
@@ -623,6 +640,7 @@ Definition dense_of (o : op) : mat :=
   | KPAD fs dk => kpad_dense fs dk
   | LRRAD n k U d => madd A n n (mtab n n (fun i j => sumn_ (fun a => amul A (mget U i a) (mget U j a)) k)) (diag_mat A n d)
   | Exact _ M => M
+  | Cached _ M _ => M
   end.
 
 (* LinearOperator.inv_quad on a leaf batch: InvQuad.apply (Cholesky solve, or the class's _solve: linear_cg for the classes
@@ -635,8 +653,9 @@ Definition leaf_inv_quad (S : settings) (bs : seq nat) (ms : seq op) (R : bool *
   | Chol _ _ _ =>
       ROk (chol_iql bs [seq (if o is Chol up k T then (up, k, T) else (false, 0, [::])) | o <- ms] (Some R) false reduce).1
   | hd =>
-      let cg_class := match hd with Generic _ _ _ => true | KPAD _ (KDiag _) => true | _ => false end in
-      let gs := [seq MkG n (dense_of o) (if o is Generic _ _ pc then pc else None) | o <- ms] in
+      (* InvQuad uses self.cholesky() / self._solve: a cached root_decomposition entry plays no role here *)
+      let cg_class := match hd with Generic _ _ _ => true | Cached _ _ _ => true | KPAD _ (KDiag _) => true | _ => false end in
+      let gs := [seq MkG n (dense_of o) (if o is Generic _ _ pc then pc else None) None | o <- ms] in
       if cg_class then
         match invquad_forward S n gs R.2 with
         | RErr e => RErr e
